@@ -94,7 +94,10 @@ class Cmp:
         return "%s%s %s %s @%s" % (self.lhs, r, "|" if self.kind == "b" else "==", self.boundary, self.loc)
 
 
-def normalise_cmp(op, a, b, loc="?", bb=None):
+UNSIGNED = ("u8", "u16", "u32", "u64", "u128", "usize")
+
+
+def normalise_cmp(op, a, b, loc="?", bb=None, lty=None):
     A, ka = linear(a)
     B, kb = linear(b)
     if A is None and B is None:
@@ -103,6 +106,10 @@ def normalise_cmp(op, a, b, loc="?", bb=None):
         # const OP b  ==  b SWAP(OP) const
         A, ka, B, kb = B, kb, None, ka
         op = SWAP[op]
+    if B is None and lty in UNSIGNED and op in ("Eq", "Ne") and kb - ka == 0:
+        # for an unsigned x:  x == 0  is  x < 1,  x != 0  is  x >= 1  (one boundary fact for `> 0`, `>= 1`, `!= 0`)
+        op = "Lt" if op == "Eq" else "Ge"
+        kb += 1
     if B is None:
         # (x - y) OP k   ==   x - y OP k  in difference form (so that `hi - lo > 0` and `hi > lo` are one fact)
         a0 = deep_strip(A)
@@ -194,7 +201,7 @@ def comparisons(body, O, include_compiler_checks=False):
                 continue
             a = O.operand(rv["l"], bb, j)
             b = O.operand(rv["r"], bb, j)
-            c = normalise_cmp(rv["op"], a, b, span_loc(s["sp"]), bb)
+            c = normalise_cmp(rv["op"], a, b, span_loc(s["sp"]), bb, rv.get("lty"))
             if c is None:
                 continue
             c.op = rv["op"]
